@@ -150,7 +150,12 @@ def binary (F : FloatOps) (op : BinaryToken) : Val → Val → Res
     (match op with
      | .bitwiseOr => .val (.enumSet (a ++ b))
      | _ => .outside)
-  | .null, .null => if isCmp op then cmpRes op true false false else .illTyped
+  | .null, .null =>
+    -- pointers are not ordered: only equality
+    (match op with
+     | .equal | .strictEqual => .val (.bool true)
+     | .notEqual | .strictNotEqual => .val (.bool false)
+     | _ => .illTyped)
   | _, _ => .illTyped
 
 mutual
